@@ -542,7 +542,10 @@ func (fc *FnCtx) evalCallWith(st *State, call *ast.CallExpr, preRecv *Val, preAr
 	f, _ := obj.(*types.Func)
 	if f == nil {
 		// call of a function value (closure variable, func-typed field / parameter)
-		return fc.evalFuncValueCall(st, call)
+		return fc.evalFuncValueCall(st, call, preArgs)
+	}
+	if vs, ok := fc.atomicCall(st, call, f); ok {
+		return vs
 	}
 	if fc.isQuiet(f) {
 		rs := fc.freshResults(st, call, "q_"+f.Name())
@@ -591,6 +594,7 @@ func (fc *FnCtx) evalCallWith(st *State, call *ast.CallExpr, preRecv *Val, preAr
 	} else {
 		args = fc.evalArgs(st, call, sig)
 	}
+	fc.checkCallPre(st, call, f, recv, args)
 	if v, ok := fc.knownLibCall(st, call, f, recv, args); ok {
 		return v
 	}
@@ -603,7 +607,7 @@ func (fc *FnCtx) evalCallWith(st *State, call *ast.CallExpr, preRecv *Val, preAr
 		return fc.inlineCall(st, call, f, decl, recv, args)
 	}
 	// interface method with statically unknown target or external function: unknown effect
-	fc.warn("unmodelled call %s: heap havocked", f.FullName())
+	fc.warn("unmodelled call %s (extern key: %s): heap havocked", f.FullName(), funcKey(f, nil))
 	_ = recvExpr
 	fc.havocAll(st)
 	return fc.freshResults(st, call, "u_"+f.Name())
@@ -621,9 +625,11 @@ func (fc *FnCtx) onInlineStack(f *types.Func) bool {
 func (fc *FnCtx) evalArgs(st *State, call *ast.CallExpr, sig *types.Signature) []Val {
 	var args []Val
 	np := sig.Params().Len()
-	if len(call.Args) == 1 && np > 1 {
-		// f(g()) with multi-value g
-		return fc.evalMulti(st, call.Args[0], np)
+	if len(call.Args) == 1 {
+		if _, isTuple := fc.typeOf(call.Args[0]).(*types.Tuple); isTuple {
+			// f(g()) with multi-value g
+			return fc.evalMulti(st, call.Args[0], np)
+		}
 	}
 	for i, a := range call.Args {
 		v := fc.eval(st, a)
@@ -927,7 +933,59 @@ func (fc *FnCtx) appendOne(st *State, s Val, v Val, elem types.Type) Val {
 
 // ---------- function values ----------
 
-func (fc *FnCtx) evalFuncValueCall(st *State, call *ast.CallExpr) []Val {
+// atomicCall models methods of sync/atomic boxes as reads/updates of the boxed value (sequentially consistent)
+func (fc *FnCtx) atomicCall(st *State, call *ast.CallExpr, f *types.Func) ([]Val, bool) {
+	sig := f.Type().(*types.Signature)
+	if sig.Recv() == nil {
+		return nil, false
+	}
+	pt, ok := sig.Recv().Type().Underlying().(*types.Pointer)
+	if !ok {
+		return nil, false
+	}
+	vt, ok := isAtomicInt(pt.Elem())
+	if !ok {
+		return nil, false
+	}
+	se := ast.Unparen(call.Fun).(*ast.SelectorExpr)
+	target := se.X // addressable expression holding the box
+	cur := fc.eval(st, target)
+	cur.Ty = vt
+	switch f.Name() {
+	case "Load":
+		return []Val{cur}, true
+	case "Store":
+		v := fc.eval(st, call.Args[0])
+		fc.assign(st, target, Val{v.T, fc.typeOf(target)})
+		return nil, true
+	case "Add":
+		d := fc.eval(st, call.Args[0])
+		sum := "(+ " + cur.T + " " + d.T + ")"
+		r := fc.smt.fresh("atomicadd", "Int")
+		if lo, hi, ok := intRange(vt); ok {
+			// two's-complement wrap-around: exact when the sum is in range
+			st.assume(fmt.Sprintf("(and (<= %s %s) (<= %s %s))", lo, r, r, hi))
+			st.assume(fmt.Sprintf("(=> (and (<= %s %s) (<= %s %s)) (= %s %s))", lo, sum, sum, hi, r, sum))
+		} else {
+			st.assume(eq(r, sum))
+		}
+		fc.assign(st, target, Val{r, fc.typeOf(target)})
+		return []Val{{r, vt}}, true
+	case "Swap":
+		v := fc.eval(st, call.Args[0])
+		fc.assign(st, target, Val{v.T, fc.typeOf(target)})
+		return []Val{cur}, true
+	case "CompareAndSwap":
+		o := fc.eval(st, call.Args[0])
+		n := fc.eval(st, call.Args[1])
+		okc := eq(cur.T, o.T)
+		fc.assign(st, target, Val{ite(okc, n.T, cur.T), fc.typeOf(target)})
+		return []Val{{okc, boolT}}, true
+	}
+	return nil, false
+}
+
+func (fc *FnCtx) evalFuncValueCall(st *State, call *ast.CallExpr, preArgs []Val) []Val {
 	fv := fc.eval(st, call.Fun)
 	if cl, ok := st.closures[fv.T]; ok {
 		return fc.inlineClosure(st, call, cl)
@@ -940,8 +998,8 @@ func (fc *FnCtx) evalFuncValueCall(st *State, call *ast.CallExpr) []Val {
 			_ = rk
 			if c, ok := p.cf.Contracts[key]; ok {
 				sig, _ := fv.Ty.Underlying().(*types.Signature)
-				var args []Val
-				if sig != nil {
+				args := preArgs
+				if sig != nil && args == nil {
 					args = fc.evalArgs(st, call, sig)
 				}
 				return fc.applyContractSig(st, call, key, sig, c, nil, args)
@@ -1222,7 +1280,8 @@ func (fc *FnCtx) applyContractSig(st *State, call *ast.CallExpr, fname string, s
 		return out
 	}
 	pre := st.clone()
-	env := &SpecEnv{fc: fc, st: st, old: pre, scope: scope, oldScope: scope, pkg: cpkg}
+	fv := strings.HasPrefix(ct.Key, "$") // contracts of function values may mention the caller's variables
+	env := &SpecEnv{fc: fc, st: st, old: pre, scope: scope, oldScope: scope, pkg: cpkg, useVars: fv}
 	for i, rq := range ct.Requires {
 		v := fc.safeSpec(env, rq.E, rq.Text)
 		fc.assertNamed(st, "pre", site+"."+clauseName(rq, i), v.T, "precondition of "+ct.Key+": "+rq.Text, pos)
@@ -1250,7 +1309,7 @@ func (fc *FnCtx) applyContractSig(st *State, call *ast.CallExpr, fname string, s
 		}
 	}
 	fc.bindResults(scope, sig, out)
-	env2 := &SpecEnv{fc: fc, st: st, old: pre, scope: scope, oldScope: scope, pkg: cpkg}
+	env2 := &SpecEnv{fc: fc, st: st, old: pre, scope: scope, oldScope: scope, pkg: cpkg, useVars: fv}
 	for _, en := range ct.Ensures {
 		st.assume(fc.safeSpec(env2, en.E, en.Text).T)
 	}
@@ -1983,6 +2042,63 @@ func (fc *FnCtx) contractMods(call *ast.CallExpr, f *types.Func, ct *Contract, m
 			}
 		case "contents":
 			fc.modReachableType(cur, ms)
+		}
+	}
+}
+
+// checkCallPre asserts the emit-preconditions the function under verification declares for a callee
+// (`callpre callee[.n]: expr`): the property clause "whenever X is called, P holds", stated over the
+// caller's variables and the callee's parameter names.
+func (fc *FnCtx) checkCallPre(st *State, call *ast.CallExpr, f *types.Func, recv *Val, args []Val) {
+	r := fc.root()
+	if r.ct == nil || len(r.ct.CallPre) == 0 || fc != r {
+		return
+	}
+	name := f.Name()
+	hasAny := false
+	for k := range r.ct.CallPre {
+		if k == name || strings.HasPrefix(k, name+".") {
+			hasAny = true
+		}
+	}
+	if !hasAny {
+		return
+	}
+	// syntactic ordinal of this call site among calls of the same callee in the function body
+	ord := 0
+	n := 0
+	ast.Inspect(r.decl.Body, func(x ast.Node) bool {
+		if c, ok := x.(*ast.CallExpr); ok {
+			if g, ok := r.calleeOf(c).(*types.Func); ok && g.Origin() == f.Origin() {
+				n++
+				if c == call {
+					ord = n
+				}
+			}
+		}
+		return true
+	})
+	sig := f.Type().(*types.Signature)
+	scope := map[string]Val{}
+	if recv != nil && sig.Recv() != nil && sig.Recv().Name() != "" {
+		scope["$recv"] = *recv
+	}
+	for i := 0; i < sig.Params().Len() && i < len(args); i++ {
+		if pn := sig.Params().At(i).Name(); pn != "" && pn != "_" {
+			scope["$"+pn] = args[i]
+		}
+		scope[fmt.Sprintf("$%d", i)] = args[i]
+	}
+	for k, v := range fc.paramsEntry {
+		if _, clash := scope[k]; !clash {
+			_ = v
+		}
+	}
+	for _, key := range []string{name, fmt.Sprintf("%s.%d", name, ord)} {
+		for i, cl := range r.ct.CallPre[key] {
+			env := &SpecEnv{fc: fc, st: st, old: r.entry, scope: scope, oldScope: fc.paramsEntry, pkg: fc.ctPkg(), useVars: true}
+			v := fc.safeSpec(env, cl.E, cl.Text)
+			fc.assertNamed(st, "emit", key+"."+clauseName(cl, i), v.T, "whenever "+key+" is called: "+cl.Text, call.Pos())
 		}
 	}
 }
